@@ -1,10 +1,16 @@
 #!/bin/sh
-# Offline setup: everything is rebuilt per run from /repo's working tree; setup only sanity-checks tools.
+# Offline setup: checks rebuild everything per run from /repo's working tree; setup sanity-checks the
+# tools and validates the hand-written models of LLVM-only intrinsics (Kani stubs) against this CPU.
 set -e
 cd "$(dirname "$0")"
 export CARGO_NET_OFFLINE=true
 command -v cargo >/dev/null
 cargo kani --version
 python3-vt -c "import z3, cvc5, jsonschema; print('z3', z3.get_version_string(), 'cvc5', cvc5.__version__)"
+z3-new --version
 mkdir -p evidence replays
+T="${VERIF_SCRATCH_BASE:-/var/tmp}/rqverif.setup.$$"
+trap 'rm -rf "$T"' EXIT
+cargo run --offline --release --manifest-path stubcheck/Cargo.toml --target-dir "$T" 2>&1 | tail -1
+python3-vt tools/gen_manifest.py >/dev/null
 echo setup ok
